@@ -251,6 +251,21 @@ let dispatch (fn : string) (copy : string) (a : arg list) : out list res =
     ml_verify (params_of copy) (getb pk) (getb msg) (getb sg) (octx ctx) >>= fun b -> ret [obool b]
   | "ml_prehash_verify", [pk; msg; sg; ctx; ph] ->
     ml_prehash_verify (params_of copy) (getb pk) (getb msg) (getb sg) (octx ctx) (zbool (geti ph)) >>= fun b -> ret [obool b]
+  | "kp_api_sign", [kp; msg] ->
+    let p = params_of copy in kp_from_bytes p (getb kp) >>= fun (s, _) -> dil_sign p s (getb msg) >>= fun sg -> ret [ob sg]
+  | "kp_api_verify", [kp; msg; sg] ->
+    let p = params_of copy in kp_from_bytes p (getb kp) >>= fun (_, pk) -> dil_verify p pk (getb msg) (getb sg) >>= fun b -> ret [obool b]
+  | "kp_ml_sign", [kp; msg; ctx; mode] ->
+    let p = params_of copy in
+    kp_from_bytes p (getb kp) >>= fun (s, _) ->
+    (if int_of_z (geti mode) = 0 then ml_sign p s (getb msg) (octx ctx) false []
+     else ml_prehash_sign p s (getb msg) (octx ctx) false (int_of_z (geti mode) = 2) [])
+    >>= fun (o, _) -> (match o with Some sg -> ret [oi (zi 1); ob sg] | None -> ret [oi Z0; ob []])
+  | "kp_ml_verify", [kp; msg; sg; ctx; mode] ->
+    let p = params_of copy in
+    kp_from_bytes p (getb kp) >>= fun (_, pk) ->
+    (if int_of_z (geti mode) = 0 then ml_verify p pk (getb msg) (getb sg) (octx ctx)
+     else ml_prehash_verify p pk (getb msg) (getb sg) (octx ctx) (int_of_z (geti mode) = 2)) >>= fun b -> ret [obool b]
   | "frame_pure", [ctx; msg] -> ret [ob (frame_pure (octx ctx) (getb msg))]
   | "frame_hash", [ph; ctx; msg] -> ret [ob (frame_hash (zbool (geti ph)) (octx ctx) (getb msg))]
   | "sha256", [m] -> ret [ob (sha256 (getb m))]
